@@ -19,6 +19,11 @@ else:
     HEX_TO_BYTE = {(a + b).encode(): bytes.fromhex(a + b) for a in HEX for b in HEX}
 
 ASCII_RE = re.compile("([\x00-\x7f]+)")
+C1_CONTROL_CHARS_RE = re.compile("[\x80-\x9f]")
+
+
+def quote_match(match):
+    return quote(match.group(0))
 
 
 def _unquote_impl(string, only_printable=False, unsafe=None):
@@ -38,7 +43,7 @@ def _unquote_impl(string, only_printable=False, unsafe=None):
         b = HEX_TO_BYTE.get(item[:2])
 
         if b is not None:
-            if only_printable and b < b" ":
+            if only_printable and (b < b" " or b == b"\x7f"):
                 append(b"%")
                 append(item)
             elif unsafe is not None and b in unsafe:
@@ -65,6 +70,11 @@ def _generate_unquoted_parts(string, only_printable=False, unsafe=None):
         c = _unquote_impl(m, only_printable=only_printable, unsafe=unsafe).decode(
             "utf-8", "replace"
         )
+
+        # NOTE: C1 control characters are multi-byte in utf-8 so they can
+        # only be told apart once decoded
+        if only_printable:
+            c = C1_CONTROL_CHARS_RE.sub(quote_match, c)
 
         yield c
 
